@@ -772,6 +772,77 @@ def _genbank_roundtrip(o, euk, mode):
     return recs[0].to_annotation_collection()
 
 
+class _FailingIO:
+    """A text handle whose k-th write raises (the disk is full): the export must fail - and leave its operand alone."""
+
+    def __init__(self, k):
+        self.k, self.n, self.parts = k, 0, []
+
+    def write(self, s):
+        self.n += 1
+        if self.n >= self.k:
+            raise OSError(28, "No space left on device")
+        self.parts.append(s)
+        return len(s)
+
+    def flush(self):
+        pass
+
+
+def _export_fault(o, which, flag_a, flag_b, k):
+    """One of the file exports into a handle that fails part-way (header, rows, FASTA section or the very last write).
+    Answer: how many writes succeeded before the failure + the exception."""
+    # where the disk fills up is relative to the size of the file: a fault-free export is counted first, then the same
+    # export is repeated into a handle that fails at write number 1 + (k/5) * (writes - 1)  (k in 0..5: first ... last write)
+    if k != "count":
+        total = _export_fault(o, which, flag_a, flag_b, "count")
+        if total[1] is not None:
+            return ["refused", total[1]]
+        h = _FailingIO(1 + (min(5, abs(int(k))) * max(0, total[0] - 1)) // 5)
+    else:
+        h = _FailingIO(10 ** 9)
+    try:
+        if which == "gff3":
+            from inscripta.biocantor.io.gff3.writer import collection_to_gff3
+
+            # (a collection on a chunk can only be exported with its sequence in chunk-relative coordinates)
+            chrom_rel = (not getattr(o, "is_chunk_relative", False)) if flag_a else flag_b
+            collection_to_gff3([o], h, add_sequences=flag_a, chromosome_relative_coordinates=chrom_rel)
+        elif which == "genbank":
+            from inscripta.biocantor.io.genbank.writer import collection_to_genbank, GenbankFlavor
+
+            collection_to_genbank([o], h, genbank_type=GenbankFlavor.EUKARYOTIC if flag_a else GenbankFlavor.PROKARYOTIC, update_translations=flag_b)
+        elif which == "tbl":
+            from inscripta.biocantor.io.ncbi.tbl_writer import collection_to_tbl
+            from inscripta.biocantor.io.genbank.constants import GenbankFlavor
+
+            collection_to_tbl([o], h, locus_tag_prefix="LT", genbank_flavor=GenbankFlavor.EUKARYOTIC if flag_a else GenbankFlavor.PROKARYOTIC,
+                              submitter_lab_name="lab", random_seed=7)
+        else:
+            from inscripta.biocantor.io.fasta.fasta import collection_to_fasta
+
+            collection_to_fasta([o], h)
+    except Exception as e:
+        return [len(h.parts), type(e).__name__]
+    return [len(h.parts), None]
+
+
+def _export_gff3_fault(o, a, b, k):
+    return _export_fault(o, "gff3", a, b, k)
+
+
+def _export_genbank_fault(o, a, b, k):
+    return _export_fault(o, "genbank", a, b, k)
+
+
+def _export_tbl_fault(o, a, k):
+    return _export_fault(o, "tbl", a, False, k)
+
+
+def _export_fasta_fault(o, k):
+    return _export_fault(o, "fasta", False, False, k)
+
+
 def _gff3_roundtrip(o, fasta):
     import io
     import os
@@ -793,6 +864,10 @@ def _gff3_roundtrip(o, fasta):
 
 ANNOTATION_COLLECTION_OPS += [
     S("gff3_roundtrip", _gff3_roundtrip, "bool", result="collection", weight=1.5),
+    S("collection_to_gff3(disk full at write k)", _export_gff3_fault, "bool", "bool", "faultpos", weight=4.0),
+    S("collection_to_genbank(disk full at write k)", _export_genbank_fault, "bool", "bool", "faultpos", weight=1.2),
+    S("collection_to_tbl(disk full at write k)", _export_tbl_fault, "bool", "faultpos", weight=1.0),
+    S("collection_to_fasta(disk full at write k)", _export_fasta_fault, "faultpos", weight=0.6),
     S("collection_to_gff3", _export_gff3, "bool", "bool", weight=2.0),
     S("collection_to_genbank", _export_genbank, "bool", "bool", weight=2.0),
     S("collection_to_tbl", _export_tbl, "bool", "bool", weight=2.0),
